@@ -107,6 +107,11 @@ pub fn ev_cases(pl: &Plain, two_d: bool, thorough: bool) -> Vec<EvCase> {
                 if i % 3 == 0 { nt(x) } else { t(x) }
             }).collect();
             v.push(EvCase { label: format!("forty functions step {}", k), specs, known_root: None });
+            // ... and forty level crossings of the first component (root searches that need several iterations each)
+            let levels: Vec<EventSpec> = (0..40).filter_map(|i| sol.sol(pl.xs[k] + (0.02 + 0.024 * ((i * 17) % 40) as f64) * h).ok().map(|y| EventSpec::new(EvKind::Y(0, y[0])))).collect();
+            if levels.len() == 40 {
+                v.push(EvCase { label: format!("forty level crossings step {}", k), specs: levels, known_root: None });
+            }
         }
         // a terminal event among several functions firing in the same step (either side of the others)
         v.push(EvCase { label: format!("term pair: other before step {}", k), specs: vec![t(a), t(b).term(1)], known_root: Some(a) });
@@ -719,6 +724,18 @@ pub fn run_check(mode: Mode, replay: Option<Value>) -> i32 {
             }
         }
     }
+    if mode == Mode::C09 {
+        // the integer conversion of the direction filter (SciPy style): the sign decides, not the value
+        for k in -3i32..=3 {
+            let want = if k > 0 { Direction::Positive } else if k < 0 { Direction::Negative } else { Direction::All };
+            let got = Direction::from(k);
+            rep.evaluations += 1;
+            if got != want {
+                let key = format!("direction-from:{}", k);
+                rep.violations.push(Violation::new(&key, "direction-conversion", format!("Direction::from({}) is {:?}, expected {:?}", k, got, want), json!({"key": key})));
+            }
+        }
+    }
     if only.is_some() {
         for v in &rep.violations {
             println!("replay: VIOLATED [{}]: {}\n{}", v.sig["check"], v.msg, serde_json::to_string_pretty(&v.case).unwrap());
@@ -739,16 +756,6 @@ pub fn run_check(mode: Mode, replay: Option<Value>) -> i32 {
             rep.rule = "two-pass: roots placed relative to the plain run's grid; every event configuration is run (dense output on, t_eval none) and every reported event is checked: bracket, y_e = sol(t_e), |g| <= L(4e-12+8eps|t|), direction at the bracketing endpoints, order, shapes; non-trivial = run with events completed; distinct = distinct (RHS fingerprint, event times, configuration)".into();
         }
         Mode::C09 => {
-            // the integer conversion of the direction filter (SciPy style): the sign decides, not the value
-            for k in -3i32..=3 {
-                let want = if k > 0 { Direction::Positive } else if k < 0 { Direction::Negative } else { Direction::All };
-                let got = Direction::from(k);
-                rep.evaluations += 1;
-                if got != want {
-                    let key = format!("direction-from:{}", k);
-                    rep.violations.push(Violation::new(&key, "direction-conversion", format!("Direction::from({}) is {:?}, expected {:?}", k, got, want), json!({"key": key})));
-                }
-            }
             rep.require("sign-change-step", 1000);
             rep.require("several-crossings", 10);
             rep.require("multi-event", 10);
